@@ -58,7 +58,9 @@ def gen_node(rng, budget, depth, maxdepth):
         nd['c'] = rng.choice(['current', 'default', 'default', ['obj', rng.randrange(X.N_SHARED)], ['obj', rng.randrange(X.N_SHARED)]])
         nd['cbd'] = rng.random() < 0.5
         nd['via'] = rng.choice(['api', 'malt'])
-    if depth > 0 and rng.random() < 0.14 and gen_allowed(nd):
+    if _COMPOSE[0] and rng.random() < 0.25 and not nd.get('feat'):
+        nd['over'] = [rng.choice(['dnc', 'dnc', 'unspec', ['conv', True], ['conv', False]]) for _ in range(rng.choice([1, 1, 2]))]
+    if depth > 0 and rng.random() < 0.14 and gen_allowed(nd) and not nd.get('over'):
         nd['v'] = rng.choice(['gen', 'gen', 'genmeth'])
         if rng.random() < 0.2:
             nd['take'] = rng.randrange(0, 3)
@@ -75,6 +77,8 @@ def gen_node(rng, budget, depth, maxdepth):
             used += u
     nd['ch'] = ch
     nd['ra'] = rng.randrange(len(ch) + 1) if rng.random() < 0.3 else None
+    if nd['ra'] is not None and rng.random() < 0.35:
+        nd['exc'] = rng.choice(['frozen', 'setattr', 'base', 'basesetattr'])
     nd['ca'] = rng.random() < 0.35
     return nd, used
 
@@ -98,7 +102,7 @@ def gen_allowed(nd):
 
 def tied(t):
     """Is the whole tree within what the model describes?  (Not: generators the consumer leaves suspended.)"""
-    return all(nd.get('take') is None for nd, _ in nodes_of(t))
+    return all(nd.get('take') is None and not nd.get('over') for nd, _ in nodes_of(t))
 
 
 def capture_matrix():
@@ -127,7 +131,11 @@ def capture_matrix():
     return out
 
 
+_COMPOSE = [False]     # does the tree being generated use wrapper composition (such trees are not sent to the model)
+
+
 def gen_tree(rng, maxsize, maxdepth):
+    _COMPOSE[0] = rng.random() < 0.25
     return gen_node(rng, max(rng.randint(1, maxsize), rng.randint(1, maxsize)), 0, maxdepth)[0]
 
 
@@ -143,6 +151,10 @@ def tree_stats(t, cov):
         n += 1
         cov['kinds'][nd['k'] + (':' + nd.get('via', '') if nd.get('via') else '') + ('+refused-feature' if nd.get('feat') else '')] += 1
         cov['variants'][nd.get('v', 'for')] += 1
+        if nd.get('over'):
+            cov['composed_wrappers']['+'.join(w if isinstance(w, str) else 'conv' for w in nd['over']) + ' over ' + nd['k']] += 1
+        if nd.get('exc') and nd['ra'] is not None:
+            cov['exception_kinds'][nd['exc']] += 1
         if X.is_gen(nd):
             cov['generator_callees'][nd['k'] + (':' + nd.get('via', '') if nd.get('via') else '')] += 1
         if nd['ra'] is not None:
@@ -186,6 +198,11 @@ def shrink_variants(t):
         yield dict(t, v='gen')
     if t.get('take') is not None:
         yield {k: v for k, v in t.items() if k != 'take'}
+    if t.get('over'):
+        yield dict(t, over=t['over'][1:])
+        yield dict(t, over=t['over'][:-1])
+    if t.get('exc'):
+        yield {k: v for k, v in t.items() if k != 'exc'}
     if t['k'] != 'plain':
         yield {'k': 'plain', 'v': t.get('v', 'for'), 'ch': t['ch'], 'ra': t['ra'], 'ca': t['ca']}
     if t.get('v', 'for') != 'for' and not (t['k'] == 'fs' and t.get('via') == 'tograph_lam') and not X.is_gen(t):
@@ -200,7 +217,7 @@ def size(t):
 
 
 def complexity(t):
-    return sum(3 + (nd['k'] != 'plain') + (nd['ra'] is not None) + nd['ca'] + (nd.get('v', 'for') != 'for') + bool(nd.get('feat')) for nd, _ in nodes_of(t))
+    return sum(3 + (nd['k'] != 'plain') + (nd['ra'] is not None) + nd['ca'] + (nd.get('v', 'for') != 'for') + bool(nd.get('feat')) + len(nd.get('over') or []) + bool(nd.get('exc')) for nd, _ in nodes_of(t))
 
 
 def shrink(t, fails, budget=300):
@@ -327,7 +344,7 @@ class Checker(object):
     def __init__(self, run):
         self.run = run
         self.cov = {'kinds': collections.Counter(), 'variants': collections.Counter(), 'raise_depth': collections.Counter(),
-                    'catch_depth': collections.Counter(), 'tree_size': collections.Counter(), 'generator_callees': collections.Counter(),
+                    'catch_depth': collections.Counter(), 'tree_size': collections.Counter(), 'generator_callees': collections.Counter(), 'composed_wrappers': collections.Counter(), 'exception_kinds': collections.Counter(),
                     'threads': collections.Counter(), 'outcomes': collections.Counter(),
                     'exception_travel_levels': collections.Counter(), 'status_inside': collections.Counter(),
                     'log_length': collections.Counter(), 'max_stack_depth_model': collections.Counter()}
